@@ -46,10 +46,18 @@ class Disk:
         self.cut: typing.Optional[int] = None
         self.on_crash = on_crash
         self.enabled = False
+        # pause points: the n-th tracked *read* open parks the process until the driver resumes it
+        self.reads = 0
+        self.pause_at: typing.Optional[int] = None
+        self.pause_match: tuple = ()
+        self.on_pause: typing.Optional[typing.Callable[[], None]] = None
 
     # -- per operation -----------------------------------------------------------------------
-    def begin(self, crash: typing.Optional[dict]) -> None:
+    def begin(self, crash: typing.Optional[dict], pause: typing.Optional[dict] = None) -> None:
         self.n = 0
+        self.reads = 0
+        self.pause_at = pause['at'] if pause else None
+        self.pause_match = tuple(pause.get('match', ())) if pause else ()
         self.log = []
         self.crash_at = crash['at'] if crash else None
         self.cut = crash.get('cut') if crash else None
@@ -78,6 +86,19 @@ class Disk:
     def rel(self, path) -> str:
         path = os.path.realpath(os.fspath(path))
         return path[len(self.root):] if path.startswith(self.root) else path
+
+    def read_point(self, path) -> None:
+        """A tracked read is about to be opened (scheduling point between two processes)."""
+        if self.pause_at is None:
+            return
+        name = os.fspath(path)
+        if self.pause_match and not name.endswith(self.pause_match):
+            return
+        self.reads += 1
+        if self.reads == self.pause_at and self.on_pause:
+            self.log.append([self.n, 'paused-before-read', self.rel(path), None])
+            self.pause_at = None
+            self.on_pause()
 
     def point(self, kind: str, path, size: typing.Optional[int] = None) -> typing.Optional[int]:
         """Register a crash point *before* the call. Returns the cut length for a write that is to be
@@ -116,6 +137,8 @@ def install(disk: Disk) -> None:
 
     def sim_open(file, mode='r', buffering=-1, encoding=None, errors=None, newline=None, closefd=True, opener=None):
         writing = any(c in mode for c in 'wax+')
+        if not writing and disk.pause_at is not None and disk.tracked(file):
+            disk.read_point(file)
         if not writing or not disk.tracked(file):
             return REAL['open'](file, mode, buffering, encoding, errors, newline, closefd, opener)
         binary = 'b' in mode
